@@ -94,7 +94,7 @@ class Ctx:
 
     # ---------------------------------------------------------------- fan-out
     def fan(self, exe, sub, total, args=(), chunk=None, timeout=120, env=None, tag=None, leaks=False,
-            max_workers=NCPU, prefix="", start=0, cases=None, scan_stderr=None):
+            max_workers=NCPU, prefix="", start=0, cases=None, scan_stderr=None, closed_stdin_every=0):
         """run `exe sub --seed S --start a --count n ...` over [start,start+total) in parallel"""
         tag = tag or sub
         if cases is not None:
@@ -118,7 +118,9 @@ class Ctx:
                        "--workdir", wd, "--progress", prog] + (["--thorough"] if self.tier == "thorough" else []) + list(args)
                 try:
                     # wall-clock watchdog (inconclusive when it fires): generous per case, but bounded for a whole chunk
-                    p = subprocess.run(cmd, stdout=subprocess.PIPE, stderr=subprocess.PIPE, env=env,
+                    # every k-th chunk starts with descriptor 0 closed (a daemon that closed stdin): open() may then return 0
+                    pre = (lambda: os.close(0)) if (closed_stdin_every and (ch[0] // max(1, ch[1])) % closed_stdin_every == closed_stdin_every - 1) else None
+                    p = subprocess.run(cmd, stdout=subprocess.PIPE, stderr=subprocess.PIPE, env=env, preexec_fn=pre,
                                        timeout=min(timeout * max(1, n), max(90, 3 * timeout + 2 * n)), errors="replace")
                     rc, so, se, hung = p.returncode, p.stdout, p.stderr, False
                 except subprocess.TimeoutExpired as e:
